@@ -455,6 +455,49 @@ fn footer_disagrees_with_last_transition(bytes: &[u8]) -> bool {
     }
 }
 
+/// large tables: RFC 8536 puts no bound on the 32-bit counts (beyond the data being present)
+fn sweep_large(rec: &Recorder, thorough: bool) -> Tally {
+    let mut tl = Tally::default();
+    let mut rejected_names: Vec<String> = vec![];
+    let sizes: Vec<(usize, usize, usize)> = if thorough {
+        vec![(255, 1, 0), (256, 2, 0), (257, 3, 1), (1999, 2, 0), (2000, 2, 0), (2001, 2, 0), (5000, 2, 27), (70000, 2, 0), (3, 255, 0), (3, 256, 0), (3, 200, 49), (3, 2, 50), (3, 2, 51), (3, 2, 300), (300000, 3, 1000)]
+    } else {
+        vec![(255, 1, 0), (256, 2, 0), (257, 3, 1), (2000, 2, 0), (2001, 2, 27), (5000, 2, 0), (3, 255, 0), (3, 256, 0), (3, 2, 50), (3, 2, 51), (3, 2, 300), (70000, 3, 100)]
+    };
+    for (timecnt, typecnt, leapcnt) in sizes {
+        let mut b = Block::default();
+        // designation pool: typecnt names of 3 characters, reusing the same few strings
+        b.chars = b"AAA\0BBB\0CCC\0".to_vec();
+        for k in 0..typecnt {
+            b.types.push(((k as i32) * 60 - 3600, (k % 2) as u8, ((k % 3) * 4) as u8));
+        }
+        for k in 0..timecnt {
+            b.trans.push((k as i64 * 15_552_000 - 1_000_000_000, ((k * 7 + 1) % typecnt.min(256)) as u8));
+        }
+        for k in 0..leapcnt {
+            b.leaps.push((78_796_800 + k as i64 * 31_536_000, k as i32 + 1));
+        }
+        for version in [0u8, b'2', b'3'] {
+            if version == 0 && (b.trans.iter().any(|&(t, _)| t > i32::MAX as i64 || t < i32::MIN as i64) || b.leaps.iter().any(|&(t, _)| t > i32::MAX as i64)) {
+                continue;
+            }
+            let small = Block { types: vec![(0, 0, 0)], chars: b"UTC\0".to_vec(), ..Default::default() };
+            let f = if version == 0 { tzif::file(0, &b, None, None) } else { tzif::file(version, &small, Some(&b), Some(b"")) };
+            let before = tl.rejected;
+            check_file(&f, &format!("large: timecnt={timecnt} typecnt={typecnt} leapcnt={leapcnt} version={version}"), rec, "large_tables", &mut tl);
+            if tl.rejected > before {
+                rejected_names.push(format!("timecnt={timecnt} typecnt={typecnt} leapcnt={leapcnt} version={version}: {:?}", tzif::decode(&f).map(|d| expected_zone(&d).is_some())));
+            }
+        }
+    }
+    // every large well-formed file must have been ACCEPTED (the model and the implementation agreeing on a rejection is not enough)
+    if tl.rejected > 0 {
+        rec.violation("large_tables", json!({"kind":"large"}), json!("well-formed files with large tables are decoded"), json!(format!("{} of {} rejected by both the independent reader/constructor and the implementation: {:?}", tl.rejected, tl.evals, rejected_names)));
+    }
+    rec.sub("large_tables", json!({"files": tl.evals, "accepted": tl.accepted}));
+    tl
+}
+
 fn sweep_corpus(rec: &Recorder) -> Tally {
     let mut files = corpus_files("fat");
     files.extend(corpus_files("slim"));
@@ -486,6 +529,7 @@ pub fn run(args: &Args) -> i32 {
     let thorough = args.thorough();
     let mut total = sweep_synth(&rec, thorough);
     total = total.merge(sweep_corpus(&rec));
+    total = total.merge(sweep_large(&rec, thorough));
     rec.add(total.evals, total.corrupt);
     rec.digest("tzif", total.digest);
     rec.set_rule("writer side: zones over {0,1,3} transitions x {1,2,3} types x {0,1,2} leap records x 4 designation pools (shared / overlapping / empty / unterminated tail) x 4 indicator layouts x 4 time sets (32/64-bit extremes) x footers, encoded v1/v2/v3 by an independent writer with a DIFFERENT zone in the 32-bit block of v2+ files; decoded zone must equal TimeZone::new(expected parts). reader side: every file of the fat and slim corpora decoded by an independent reader. reject side: every corruption class of the property on the synthesised files. non-trivial = corrupted files");
